@@ -10,6 +10,7 @@ import (
 	"strings"
 
 	"github.com/ipfs/go-cid"
+	dagpb "github.com/ipld/go-codec-dagpb"
 	"github.com/ipld/go-ipld-prime/datamodel"
 	"github.com/ipld/go-ipld-prime/linking"
 	cidlink "github.com/ipld/go-ipld-prime/linking/cid"
@@ -79,6 +80,12 @@ type faultPlan struct {
 	after   int
 	flavour int  // 0: opaque injected error; 1..3: well-known error values, see flavourErr
 	onward  bool // with kth >= 0: every request from the kth on fails (the store went away / the context was cancelled)
+	// cancelCtx: the context the node was reified under is REALLY cancelled the
+	// moment the plan first fires (and the store, honouring it, fails that and
+	// every later request with context.Canceled); cancel is set by the
+	// scenario before install
+	cancelCtx bool
+	cancel    func()
 }
 
 // flavourErr returns the error value a real store might fail with. Code that
@@ -99,6 +106,11 @@ func flavourErr(f int, c string) error {
 		// truncated CAR stream, a block file cut to zero length) and reports
 		// that, as io packages do, with the bare io.EOF value
 		return io.EOF
+	case 7:
+		// an error that WRAPS io.EOF (a store front-end annotating what its
+		// back-end said): errors.Is(err, io.EOF) is true, err == io.EOF is not.
+		// It is a load error like any other, not an end of file.
+		return fmt.Errorf("read /blocks/%s: %w", c, io.EOF)
 	case 4:
 		// what a visit-once / de-duplicating link loader returns for a block it
 		// refuses to hand out again; the traversal engine gives this value a
@@ -113,7 +125,7 @@ func (p faultPlan) String() string {
 	if p.flavour > 0 {
 		q := p
 		q.flavour = 0
-		return q.String() + " failing with " + []string{"", "io.ErrUnexpectedEOF", "*fs.PathError{fs.ErrNotExist}", "wrapped context.DeadlineExceeded", "traversal.SkipMe{}", "io.EOF", "context.Canceled"}[p.flavour]
+		return q.String() + " failing with " + []string{"", "io.ErrUnexpectedEOF", "*fs.PathError{fs.ErrNotExist}", "wrapped context.DeadlineExceeded", "traversal.SkipMe{}", "io.EOF", "context.Canceled", "an error wrapping io.EOF"}[p.flavour] + map[bool]string{true: " after really cancelling the context", false: ""}[p.cancelCtx]
 	}
 	if p.kth >= 0 && p.onward {
 		return fmt.Sprintf("%s@every load from #%d on", p.kind, p.kth)
@@ -157,6 +169,9 @@ func (p faultPlan) install(st *store.Store) func() []cid.Cid {
 			return nil
 		}
 		hit = append(hit, c)
+		if p.cancel != nil {
+			p.cancel()
+		}
 		switch p.kind {
 		case store.Corrupt:
 			data, _ := st.Get(c)
@@ -406,10 +421,15 @@ func (c12) runFile(ts *tape.Set, tier Tier) *Result {
 		st.ReadPolicy = nil
 		st.Frag = fragFn(fragSeed, fragMode)
 		var hits func() []cid.Cid
+		w := newWorld(st, trusted, nodeReifier)
 		if p != nil {
+			if p.cancelCtx {
+				ctx, cancel := context.WithCancel(context.Background())
+				defer cancel()
+				w.Ctx, p.cancel = ctx, cancel
+			}
 			hits = p.install(st)
 		}
-		w := newWorld(st, trusted, nodeReifier)
 		br := tape.NewSplitMix(bufSeed)
 		panicked, site, pmsg = guard(func() {
 			n, how, err := openFile(w, root, via)
@@ -488,7 +508,7 @@ func (c12) runFile(ts *tape.Set, tier Tier) *Result {
 		}
 		// the store recovers: a new reader from the SAME node must deliver the
 		// whole content (nothing about the failure may be remembered)
-		if p != nil && !panicked && lastNode != nil && len(hit) > 0 {
+		if p != nil && !panicked && lastNode != nil && len(hit) > 0 && !p.cancelCtx {
 			st.ReadPolicy = nil
 			var again []byte
 			var aerr error
@@ -554,6 +574,9 @@ func (c12) runFile(ts *tape.Set, tier Tier) *Result {
 		if i%2 == 0 {
 			plans = append(plans, faultPlan{kind: store.EIOOpen, targets: []cid.Cid{b}, kth: -1, flavour: 5})
 		}
+		if i%3 == 1 || len(blocks) <= 3 {
+			plans = append(plans, faultPlan{kind: []store.FaultKind{store.EIOOpen, store.EIOMid}[(i/3)%2], targets: []cid.Cid{b}, kth: -1, after: i * 5, flavour: 7})
+		}
 	}
 	for k := 1; k < nLoads; k += kthStride(nLoads) { // load 0 is the root
 		kind := faultKinds[k%len(faultKinds)]
@@ -567,6 +590,13 @@ func (c12) runFile(ts *tape.Set, tier Tier) *Result {
 	for _, k := range []int{1, nLoads / 3, nLoads / 2, nLoads - 1} {
 		if k >= 1 && k < nLoads {
 			plans = append(plans, faultPlan{kind: store.EIOOpen, kth: k, onward: true, flavour: []int{0, 6}[k%2]})
+		}
+	}
+	// the same with the caller's context really cancelled at that moment (the
+	// node carries the context it was reified under)
+	for _, k := range []int{1, nLoads / 2} {
+		if k >= 1 && k < nLoads {
+			plans = append(plans, faultPlan{kind: store.EIOOpen, kth: k, onward: true, flavour: 6, cancelCtx: true})
 		}
 	}
 	sr := tape.NewSplitMix(subsetSeed)
@@ -764,7 +794,7 @@ func (c12) runDir(ts *tape.Set, tier Tier) *Result {
 	}
 	spec := gen.DrawDirSpec(shape, gen.DirOpts{MaxN: maxN})
 	probeSeed := shape.Raw()
-	entryPoint := shape.Intn(3)
+	entryPoint := shape.Intn(4)
 
 	st := store.New()
 	root, entries, err := gen.WriteShardedDir(st, spec)
@@ -808,7 +838,7 @@ func (c12) runDir(ts *tape.Set, tier Tier) *Result {
 
 	// names to look up: members under / not under the faulted shard are picked per plan
 	pr := tape.NewSplitMix(probeSeed)
-	nonMembers := []string{"", "zz-not-there", "f", "00", "m0x"}
+	nonMembers := []string{"", "zz-not-there", "f", "00", "m0x", "a/b", "/"}
 	for i := 0; i < 6; i++ {
 		nonMembers = append(nonMembers, fmt.Sprintf("nm%d", pr.Next()%100000))
 	}
@@ -819,9 +849,19 @@ func (c12) runDir(ts *tape.Set, tier Tier) *Result {
 			return n.LookupByString(name)
 		case 1:
 			return n.LookupByNode(basicnode.NewString(name))
+		case 3:
+			// the key as a directory iterator hands it out: a dag-pb string node
+			nb := dagpb.Type.String.NewBuilder()
+			if err := nb.AssignString(name); err != nil {
+				return nil, err
+			}
+			return n.LookupByNode(nb.Build())
 		default:
-			return n.LookupBySegment(datamodel.PathSegmentOfString(name))
+			return n.LookupBySegment(segmentFor(name))
 		}
+	}
+	if entryPoint == 3 {
+		res.probe("lookup-by-dagpb-string-node")
 	}
 
 	type plan struct {
@@ -851,6 +891,12 @@ func (c12) runDir(ts *tape.Set, tier Tier) *Result {
 	for _, k := range []int{1, len(all) / 2, len(all) - 1} {
 		if k >= 1 && k < len(all) && len(all)-k <= 200 {
 			plans = append(plans, faultPlan{kind: store.EIOOpen, targets: append([]cid.Cid(nil), all[k:]...), kth: -1, flavour: []int{0, 6}[k%2]})
+			if k != len(all)/2 || k == 1 {
+				// ... and with the context the directory was reified under really
+				// cancelled at that moment (iteration only: a cancelled context
+				// does not come back, and it fails every path of a lookup)
+				plans = append(plans, faultPlan{kind: store.EIOOpen, targets: append([]cid.Cid(nil), all[k:]...), kth: -1, flavour: 6, cancelCtx: true})
+			}
 		}
 	}
 	// transient: k-th load of a full iteration fails once
@@ -880,13 +926,18 @@ func (c12) runDir(ts *tape.Set, tier Tier) *Result {
 			st.ResetLog()
 			st.ReadPolicy = nil
 			w := world.New(st, false)
+			if p.cancelCtx {
+				ctx, cancel := context.WithCancel(context.Background())
+				w.Ctx, p.cancel = ctx, cancel
+				res.probe("context-cancelled-mid-iteration")
+			}
 			// the root load must not consume the transient fault index
 			n, err := w.Reify(root)
 			hits := p.install(st)
 			return n, hits, err
 		}
 
-		if p.kth < 0 {
+		if p.kth < 0 && !p.cancelCtx {
 			for _, t := range p.targets {
 				if lastLink[t.KeyString()] {
 					res.probe("missing-last-link-shard")
@@ -1055,7 +1106,7 @@ func (c12) runDir(ts *tape.Set, tier Tier) *Result {
 
 		// ---- preloading reification is an operation that can report: with a
 		// shard persistently unavailable it must return the load error
-		if p.kth < 0 {
+		if p.kth < 0 && !p.cancelCtx {
 			st.ResetLog()
 			st.ReadPolicy = nil
 			w := world.New(st, false)
@@ -1212,7 +1263,10 @@ func (c12) runDir(ts *tape.Set, tier Tier) *Result {
 		}
 		// ---- the store recovers: iterating the SAME node again must now
 		// yield every entry once and no error
-		if len(hit) > 0 {
+		if p.cancel != nil {
+			p.cancel()
+		}
+		if len(hit) > 0 && !p.cancelCtx {
 			st.ReadPolicy = nil
 			count, nerr, dup := 0, 0, false
 			seen2 := map[string]bool{}
